@@ -5,16 +5,16 @@ package epochkg
 
 // Representation invariant of EpochKG (C01): pending share lists are non-empty, strictly below the
 // threshold, hold non-nil shares of distinct senders; derived keys are non-nil.
-//@ pred kgBase(kg) := kg != nil && kg.SecretShares != nil && kg.SecretKeys != nil && kg.Threshold >= 1 && kg.Threshold <= 1048576 && (forall i :: 0 <= i && i < len(kg.PublicKeyShares) ==> kg.PublicKeyShares[i] != nil)
+//@ pred kgBase(kg) := kg != nil && kg.SecretShares != nil && kg.SecretKeys != nil && kg.Threshold >= 1 && kg.Threshold <= 9223372036854775807 && (forall i :: 0 <= i && i < len(kg.PublicKeyShares) ==> kg.PublicKeyShares[i] != nil)
 //@ pred kgKeysNonNil(kg) := forall k Str :: has(kg.SecretKeys, k) ==> kg.SecretKeys[k] != nil
 //@ pred kgSharesNonNil(kg) := forall k Str, i :: has(kg.SecretShares, k) && 0 <= i && i < len(kg.SecretShares[k]) ==> kg.SecretShares[k][i] != nil
 //@ pred kgBelowThreshold(kg) := forall k Str :: has(kg.SecretShares, k) ==> (len(kg.SecretShares[k]) >= 1 && len(kg.SecretShares[k]) < kg.Threshold)
 //@ pred kgDistinct(kg) := forall k Str, i, j :: has(kg.SecretShares, k) && 0 <= i && i < j && j < len(kg.SecretShares[k]) ==> kg.SecretShares[k][i].Sender != kg.SecretShares[k][j].Sender
-//@ pred kgShareFields(kg) := len(kg.PublicKeyShares) <= 1048576 && (forall k Str, i :: has(kg.SecretShares, k) && 0 <= i && i < len(kg.SecretShares[k]) ==> (kg.SecretShares[k][i].Share != nil && kg.SecretShares[k][i].Sender < len(kg.PublicKeyShares)))
+//@ pred kgShareFields(kg) := len(kg.PublicKeyShares) <= 9223372036854775807 && (forall k Str, i :: has(kg.SecretShares, k) && 0 <= i && i < len(kg.SecretShares[k]) ==> (kg.SecretShares[k][i].Share != nil && kg.SecretShares[k][i].Sender < len(kg.PublicKeyShares)))
 //@ pred wfKG(kg) := kgBase(kg) && kgKeysNonNil(kg) && kgSharesNonNil(kg) && kgBelowThreshold(kg) && kgDistinct(kg) && kgShareFields(kg)
 //@
 //@ func NewEpochKG
-//@   requires puredkgResult != nil && puredkgResult.Threshold >= 1 && puredkgResult.Threshold <= 1048576 && len(puredkgResult.PublicKeyShares) <= 1048576 && (forall i :: 0 <= i && i < len(puredkgResult.PublicKeyShares) ==> puredkgResult.PublicKeyShares[i] != nil)
+//@   requires puredkgResult != nil && puredkgResult.Threshold >= 1 && puredkgResult.Threshold <= 9223372036854775807 && len(puredkgResult.PublicKeyShares) <= 9223372036854775807 && (forall i :: 0 <= i && i < len(puredkgResult.PublicKeyShares) ==> puredkgResult.PublicKeyShares[i] != nil)
 //@   ensures ret0 != nil && fresh(ret0) && wfKG(ret0)
 //@   ensures ret0.Threshold == puredkgResult.Threshold && len(ret0.PublicKeyShares) == len(puredkgResult.PublicKeyShares)
 //@   ensures forall i :: 0 <= i && i < len(puredkgResult.PublicKeyShares) ==> ret0.PublicKeyShares[i] == puredkgResult.PublicKeyShares[i]
@@ -27,8 +27,8 @@ package epochkg
 //@ // The key is combined from exactly Threshold shares of pairwise distinct senders, and the index list and
 //@ // the share list handed to the Lagrange combination are aligned element by element with that list.
 //@ func (*EpochKG).computeEpochSecretKey
-//@   requires epochkg != nil && len(shares) == epochkg.Threshold && len(shares) <= 1048576
-//@   requires forall i :: 0 <= i && i < len(shares) ==> (shares[i] != nil && shares[i].Share != nil && shares[i].Sender <= 1048576)
+//@   requires epochkg != nil && len(shares) == epochkg.Threshold && len(shares) <= 9223372036854775807
+//@   requires forall i :: 0 <= i && i < len(shares) ==> (shares[i] != nil && shares[i].Share != nil && shares[i].Sender <= 9223372036854775807)
 //@   requires forall i, j :: 0 <= i && i < j && j < len(shares) ==> shares[i].Sender != shares[j].Sender
 //@   ensures ret1 == nil && ret0 != nil && fresh(ret0)
 //@   ensures len(keyperIndices) == len(shares) && len(epochSecretKeyShares) == len(shares)
